@@ -419,6 +419,16 @@ func GenNet(t *rapid.T, maxAllow int) NetSpec {
 	if Chance(t, 20, "hardroll") {
 		ns.Hard = rapid.IntRange(1, 3).Draw(t, "hard")
 	}
+	// equilibrium difficulty estimator: timestamps (fast / slow branches) then
+	// really change the per-block work, so length and work come apart
+	ns.Calm = Chance(t, 45, "calm")
+	if ns.Calm && Chance(t, 50, "earlycut") {
+		ns.CutOff = Uniform(t, 3, "cutoff2")
+		if ns.Allow > 3 && ns.Allow < 100 {
+			ns.Allow = 1 + Uniform(t, 3, "allow2")
+			ns.ReqOff = Uniform(t, 3, "reqoff2")
+		}
+	}
 	return ns
 }
 
